@@ -94,7 +94,7 @@ pub fn run(cfg: Config) -> i32 {
 
 fn mixtures(m: &mut Monitor, cfg: &Config) {
     let pairs = hydrocarbon_pairs(1.8);
-    let n = cfg.tier.pick(250, 8000);
+    let n = cfg.tier.pick(1200, 8000);
     let idx: Vec<u64> = (0..n).collect();
     par_cases(m, &idx, |m, _, &i| {
         let mut rng = Rng::derive(cfg.seed, "c07-mix", i);
@@ -220,7 +220,7 @@ fn mixtures(m: &mut Monitor, cfg: &Config) {
 
 fn zoo(m: &mut Monitor, cfg: &Config) {
     let col = Collections::load();
-    let n = cfg.tier.pick(200, 6000);
+    let n = cfg.tier.pick(1000, 6000);
     let idx: Vec<u64> = (0..n).collect();
     par_cases(m, &idx, |m, _, &i| {
         let mut rng = Rng::derive(cfg.seed, "c07-zoo", i);
@@ -301,7 +301,7 @@ fn zoo(m: &mut Monitor, cfg: &Config) {
 
 fn pure(m: &mut Monitor, cfg: &Config) {
     let cases = shipped_pure_cases();
-    let stride = cfg.tier.pick(8, 1);
+    let stride = cfg.tier.pick(3, 1);
     let sel: Vec<_> = cases.into_iter().enumerate().filter(|(i, c)| i % stride == 0 && c.must_succeed).map(|(_, c)| c).collect();
     par_cases(m, &sel, |m, ci, pc| {
         let Ok(eos) = pc.spec.build() else {
